@@ -54,7 +54,7 @@ func (b *builder) variant(base gen.MsgSpec) (gen.MsgSpec, string) {
 	var what []string
 	ops := b.r.Range(1, 3)
 	for ; ops > 0; ops-- {
-		switch b.r.Intn(9) {
+		switch b.r.Intn(10) {
 		case 0: // insert other headers
 			for k := b.r.Range(1, 3); k > 0; k-- {
 				p := b.r.Intn(len(m.Hdrs) + 1)
@@ -159,6 +159,16 @@ func (b *builder) variant(base gen.MsgSpec) (gen.MsgSpec, string) {
 					what = append(what, "via-params")
 				}
 			}
+		case 9: // reorder header lines of different kinds (same-kind lines keep their order, so "first Via" etc. stay):
+			// the header-order part changes legitimately, method and character-class parts must not
+			for k := b.r.Range(1, 6); k > 0 && len(m.Hdrs) > 1; k-- {
+				i := b.r.Intn(len(m.Hdrs) - 1)
+				a, c := m.Hdrs[i], m.Hdrs[i+1]
+				if a.Kind != c.Kind || a.Kind == "" {
+					m.Hdrs[i], m.Hdrs[i+1] = c, a
+				}
+			}
+			what = append(what, "permute")
 		case 5: // whitespace / folding around values, other terminators
 			for i := range m.Hdrs {
 				h := &m.Hdrs[i]
